@@ -312,6 +312,16 @@ func (ci *condIndex) withInterval(term string, lo, hi int64, fn func()) {
 	fn()
 }
 
+// valueMatches: some branch condition of the function has the canonical form pat (or its negation)
+func (ci *condIndex) valueMatches(pat string) bool {
+	for _, s := range ci.conds {
+		if matchCond(s, pat) || (negateCondString(s) != "" && matchCond(negateCondString(s), pat)) {
+			return true
+		}
+	}
+	return false
+}
+
 // dominatedByEdge: block b is only reachable after taking edge (x -> x.Succs[k]) of an If matching pat with the given truth
 func (ci *condIndex) dominatedByCond(b *ssa.BasicBlock, pat string, truth bool) bool {
 	for ifi, s := range ci.conds {
